@@ -370,6 +370,12 @@ func c05Dests(r *rand.Rand, port int, names map[string]func(qtype uint16, nth in
 	host("private-then-public", static(priv, p4), "dontcare", "dns/private-then-public", p4)
 	host("public-then-private", static(p4, priv), "dontcare", "dns/public-then-private", p4)
 	host("private4-public6", static(priv, p6), "dontcare", "dns/private4-public6", p6)
+	// the first answer is public but cannot be connected to; the proxy then tries the next answers,
+	// and each of them must be judged on its own
+	unreach := net.IPv4(45, 99, 99, byte(1+r.Intn(250)))
+	host("unreachable-public-then-private", static(unreach, priv), "dontcare", "dns/unreachable-public-then-private")
+	host("unreachable-public-then-loopback", static(unreach, net.IPv4(127, 0, 0, 1)), "dontcare", "dns/unreachable-public-then-loopback")
+	host("unreachable-public6-then-ula", static(net.ParseIP("2606:4700:99::1"), priv6), "dontcare", "dns/unreachable-public6-then-ula")
 	// rebinding: public for the first query of each type, private afterwards
 	host("rebinding", func(qt uint16, nth int) []net.IP {
 		if nth == 0 {
@@ -407,7 +413,8 @@ func c05EndToEnd(c *vk.Ctx) bool {
 		return lab.DNSAnswer{IPs: f(qtype, nth)}
 	})
 	// TCP sink: wildcard hub, records the destination of every connection and its first 8 bytes
-	hub := StartTargetHub(0)
+	// (port below the ephemeral range, so that the UDP sink can use the same number)
+	hub := StartTargetHub(freePort())
 	defer hub.Close()
 	var omu sync.Mutex
 	var arrivals []sinkObs
@@ -432,6 +439,32 @@ func c05EndToEnd(c *vk.Ctx) bool {
 	nmu.Lock()
 	dests := c05Dests(r, hub.Port, names)
 	nmu.Unlock()
+	// A name whose first answer is public but REFUSES the connection (nothing listens on this
+	// port there), and whose second answer is private with a listener: the proxy falls back to
+	// the next address, which must be judged on its own.
+	p2 := freePort()
+	privIP := net.IPv4(10, 88, byte(c.Batch), 7).To4()
+	if sinkLn, err := net.ListenTCP("tcp4", &net.TCPAddr{IP: privIP, Port: p2}); err == nil {
+		defer sinkLn.Close()
+		go func() {
+			for {
+				cn, err := sinkLn.AcceptTCP()
+				if err != nil {
+					return
+				}
+				omu.Lock()
+				arrivals = append(arrivals, sinkObs{proto: "tcp", dst: privIP})
+				omu.Unlock()
+				cn.Close()
+			}
+		}()
+		pubRefusing := net.IPv4(45, 82, byte(c.Batch), 9).To4()
+		name := fmt.Sprintf("refused-public-then-private-%x.c05.lab", r.Intn(1<<30))
+		nmu.Lock()
+		names[name] = func(uint16, int) []net.IP { return []net.IP{pubRefusing, privIP} }
+		nmu.Unlock()
+		dests = append(dests, destCase{Name: "hostname/refused-public-then-private", Addr: sscodec.AddrDomain(name, p2), Verdict: "dontcare", Class: "dns/refused-public-then-private"})
+	}
 	// ---- TCP ----
 	var wg sync.WaitGroup
 	sem := make(chan struct{}, 12)
@@ -573,6 +606,55 @@ func c05EndToEnd(c *vk.Ctx) bool {
 			cl.Close()
 		}
 	}
+	// one service, two UDP listeners (one handler serves both, as in the server binary): a flood of
+	// datagrams for a forbidden address on one listener while public ones flow on the other
+	pc2, err := net.ListenUDP("udp", &net.UDPAddr{})
+	if err == nil {
+		bigBuffers(pc2)
+		done2 := make(chan struct{})
+		go func() { urig.Handler.Handle(pc2); close(done2) }()
+		stop := make(chan struct{})
+		var fwg sync.WaitGroup
+		k := keys[0]
+		ss := k.Codec().C.SaltSize
+		fwg.Add(1)
+		go func() {
+			defer fwg.Done()
+			fr := c.SubRng("c05flood", 0)
+			fcl, err := newUDPClient(net.IPv4(198, 51, 100, 201).To4(), 0, k)
+			if err != nil {
+				return
+			}
+			defer fcl.Close()
+			bad := sscodec.AddrIP(net.IPv4(10, 66, 6, 6), hub.Port, false)
+			for {
+				select {
+				case <-stop:
+					return
+				default:
+				}
+				fcl.Send(ssUDP(k, randBytes(fr, ss), bad, mkUDPPayload(nextID(c.Batch), 0, 0, 16)), &net.UDPAddr{IP: net.IPv4(203, 0, 113, 10), Port: pc2.LocalAddr().(*net.UDPAddr).Port})
+				time.Sleep(50 * time.Microsecond)
+			}
+		}()
+		gcl, err := newUDPClient(net.IPv4(198, 51, 100, 202).To4(), 0, k)
+		if err == nil {
+			for i := 0; i < c.N(600, 3000); i++ {
+				id := nextID(c.Batch)
+				gcl.Send(ssUDP(k, randBytes(r, ss), sscodec.AddrIP(pub, hub.Port, false), mkUDPPayload(id, 0, 0, 16)), urig.Addr4())
+				if i%50 == 0 {
+					waitSink(usink, id)
+				}
+			}
+			gcl.Close()
+		}
+		close(stop)
+		fwg.Wait()
+		pc2.Close()
+		<-done2
+		c.Count("two_listener_floods", 1)
+		c.Eval("e2e|udp|two-listeners-one-handler|forbidden-flood-vs-public-traffic")
+	}
 	// every datagram the proxy wrote on any outbound socket, classified (covers broadcast/multicast,
 	// for which no sink can exist)
 	for _, s := range urig.Nat.All() {
@@ -638,11 +720,12 @@ func c05Strace(c *vk.Ctx) bool {
 		}
 		return lab.DNSAnswer{IPs: f(qtype, nth)}
 	})
-	hub := StartTargetHub(0)
+	hub := StartTargetHub(freePort())
 	defer hub.Close()
 	hub.SetDefault(echoTCP)
-	usink, _ := NewUDPEnd(nil, hub.Port)
-	defer usink.Close()
+	if usink, err := NewUDPEnd(nil, hub.Port); err == nil {
+		defer usink.Close()
+	}
 	k := KeySpec{"k", pick(r, cipherNames), randSecret(r)}
 	base := 14000 + c.Batch*10
 	cf := ConfSpec{Services: []SvcSpec{{Listeners: []LnSpec{{"tcp", fmt.Sprintf("203.0.113.70:%d", base)}, {"udp", fmt.Sprintf("203.0.113.70:%d", base)}}, Keys: []KeySpec{k}}}}
@@ -748,7 +831,7 @@ func init() {
 		ExhaustiveCounter: "ipv4_addresses_enumerated",
 		ExhaustiveMin:     1 << 32,
 		Run: func(c *vk.Ctx) {
-			for _, s := range []string{"validator_addresses_checked", "tcp_forbidden_requests_refused", "tcp_public_requests_served", "udp_forbidden_datagrams_dropped_on_live_association", "udp_public_datagrams_forwarded", "udp_outbound_writes_classified", "syscalls_classified"} {
+			for _, s := range []string{"validator_addresses_checked", "tcp_forbidden_requests_refused", "tcp_public_requests_served", "udp_forbidden_datagrams_dropped_on_live_association", "udp_public_datagrams_forwarded", "udp_outbound_writes_classified", "syscalls_classified", "two_listener_floods"} {
 				c.Require(s)
 			}
 			if !c05Sweep(c) {
